@@ -38,6 +38,12 @@ class AlphaRename(ast.NodeTransformer):
                 for t in stmt_targets(n):
                     if isinstance(t, ast.Name):
                         bound.add(t.id)
+        for n in walk_no_nested(fn):
+            if isinstance(n, (ast.Import, ast.ImportFrom)):
+                for al in n.names:
+                    declared.add((al.asname or al.name).split(".")[0])
+            if isinstance(n, ast.ExceptHandler) and n.name:
+                declared.add(n.name)
         nested_names = set()
         for n in walk_no_nested(fn):
             if isinstance(n, (ast.FunctionDef, ast.AsyncFunctionDef, ast.Lambda, ast.ClassDef, ast.ListComp, ast.SetComp,
